@@ -314,6 +314,7 @@ def prop_C05(run):
     rules_op.slice_bounds_rule(run)
     rules_op.string_token_rule(run)
     rules_op.continuation_same_line(run)       # an expression ends with its line
+    rules_op.keyword_whole_identifier(run)
     rules_op.lazy_operands_typed(run)          # both operands of || and && are tested for being booleans
     rules_op.strlen_rule(run)                  # strlen counts the bytes of the encoded value (F73)
     rules_lim.lim4(run)
@@ -422,6 +423,7 @@ def prop_C15(run):
     rules_sym.use_rules(run)
     rules_sym.parse_rules(run)
     import rules_op as _rop
+    _rop.keyword_whole_identifier(run)          # names that start with a keyword are names
     _rop.continuation_same_line(run)            # a name at the end of a line does not swallow the `.label` of the next line
     rules_sym.prepass_rules(run)
     rules_mpt.pipeline(run)
